@@ -45,7 +45,7 @@ func H_C16_variable_partition() {
 }
 
 func cvRating(n int) {
-	T := 1
+	T := 2
 	in := cvSeries("in", T)
 	xs, ys := data.NewArray1DFloat64(n), data.NewArray1DFloat64(n)
 	for i := 0; i < n; i++ {
@@ -56,15 +56,19 @@ func cvRating(n int) {
 		}
 	}
 	// inside the table (outside it the model panics by design: Piecewise reports an error)
-	vsym.Assume(in.Get1(0) >= xs.Get1(0) && in.Get1(0) <= xs.Get1(n-1))
+	for t := 0; t < T; t++ {
+		vsym.Assume(in.Get1(t) >= xs.Get1(0) && in.Get1(t) <= xs.Get1(n-1))
+	}
 	o1, o2 := data.NewArray1DFloat64(T), data.NewArray1DFloat64(T)
 	ratingPartition(in, n, xs, ys, o1, o2)
 	vsym.Reach("run")
-	vsym.AssertNear(o1.Get1(0)+o2.Get1(0), in.Get1(0), cvAbs, cvRel, "outputs-sum-to-input")
-	// at a knot the proportion is the table value
-	for i := 0; i < n; i++ {
-		if in.Get1(0) == xs.Get1(i) {
-			vsym.AssertNear(o1.Get1(0), in.Get1(0)*ys.Get1(i), cvAbs, cvRel, "knot-uses-table-proportion")
+	for t := 0; t < T; t++ {
+		vsym.AssertNear(o1.Get1(t)+o2.Get1(t), in.Get1(t), cvAbs, cvRel, "outputs-sum-to-input")
+		// at a knot the proportion is the table value
+		for i := 0; i < n; i++ {
+			if in.Get1(t) == xs.Get1(i) {
+				vsym.AssertNear(o1.Get1(t), in.Get1(t)*ys.Get1(i), cvAbs, cvRel, "knot-uses-table-proportion")
+			}
 		}
 	}
 }
